@@ -24,8 +24,26 @@ PROPS['C10'] = dict(
                  'spec and round-trips within the documented resolution; every OpCode constructor followed by opcode_type '
                  'decodes to the operand it was built from (bit-vector lemmas); all assert!/expect/unreachable!/overflow '
                  'sites in those functions are proved unreachable under the stated preconditions.'),
-    verus=[dict(unit='switch')],
-    kani=[],
+    verus=[dict(unit='switch', cex={'evaluate_boolean': ['c10_b_shape_nested_last_then_more', 'c10_b_shape_nested_first', 'c10_b_shape_nested_last', 'c10_b_shape_toplevel_list']})],
+    kani=[
+        H('keyberon', 'action::switch', 'c10_k_codec_ticks', kind='complete', functions=['keyberon/src/action/switch.rs lossy_compress_ticks', 'keyberon/src/action/switch.rs lossy_decompress_ticks', 'keyberon/src/action/switch.rs OpCode::new_ticks_since_gt', 'keyberon/src/action/switch.rs OpCode::new_ticks_since_lt', 'keyberon/src/action/switch.rs OpCode::opcode_type'], covers='all u16 thresholds x all recencies'),
+        H('keyberon', 'action::switch', 'c10_k_codec_keys', kind='complete', functions=['keyberon/src/action/switch.rs OpCode::new_key', 'keyberon/src/action/switch.rs OpCode::new_key_history'], covers='all 768 key codes x all recencies'),
+        H('keyberon', 'action::switch', 'c10_k_codec_bool', kind='complete', functions=['keyberon/src/action/switch.rs OpCode::new_bool', 'keyberon/src/action/switch.rs OperatorAndEndIndex::from'], covers='3 operators x all end indices <= 0x0FFF'),
+        H('keyberon', 'action::switch', 'c10_k_codec_two_word', kind='complete', functions=['keyberon/src/action/switch.rs OpCode::new_active_input', 'keyberon/src/action/switch.rs OpCode::new_historical_input', 'keyberon/src/action/switch.rs OpCode::new_layer', 'keyberon/src/action/switch.rs OpCode::new_base_layer'], covers='all coordinates row<4 col<1024, recency<8, all layers < 60000'),
+        H('keyberon', 'action::switch', 'c10_k_codec_ticks_neg', kind='complete', expect='fail', covers='must-fail twin: lossy codec claimed exact'),
+        H('keyberon', 'action::switch', 'c10_b_leaf_key', kind='bounded', bound='<= 3 active keys', functions=['keyberon/src/action/switch.rs evaluate_boolean (KeyCode leaf arm)']),
+        H('keyberon', 'action::switch', 'c10_b_leaf_key_history', kind='complete', bound='history <= 8 entries = capacity of the real History', functions=['keyberon/src/action/switch.rs evaluate_boolean (HistoricalKeyCode leaf arm)']),
+        H('keyberon', 'action::switch', 'c10_b_leaf_ticks_gt', kind='complete', bound='history <= 8 entries = capacity of the real History', functions=['keyberon/src/action/switch.rs evaluate_boolean (TicksSinceGreaterThan leaf arm)']),
+        H('keyberon', 'action::switch', 'c10_b_leaf_ticks_lt', kind='complete', bound='history <= 8 entries = capacity of the real History', functions=['keyberon/src/action/switch.rs evaluate_boolean (TicksSinceLessThan leaf arm)']),
+        H('keyberon', 'action::switch', 'c10_b_leaf_input', kind='bounded', bound='<= 3 active coordinates', functions=['keyberon/src/action/switch.rs evaluate_boolean (Input leaf arm)']),
+        H('keyberon', 'action::switch', 'c10_b_leaf_input_history', kind='complete', bound='history <= 8 entries = capacity of the real History', functions=['keyberon/src/action/switch.rs evaluate_boolean (HistoricalInput leaf arm)']),
+        H('keyberon', 'action::switch', 'c10_b_leaf_layer', kind='bounded', bound='<= 3 layers in the order (only the first is read)', functions=['keyberon/src/action/switch.rs evaluate_boolean (Layer, BaseLayer leaf arms)']),
+        H('keyberon', 'action::switch', 'c10_b_leaf_key_neg', kind='bounded', expect='fail', covers='must-fail twin: key leaf claimed always true'),
+        H('keyberon', 'action::switch', 'c10_b_shape_nested_first', kind='bounded', bound='fixed shape (op1 (op2 a b) c), all 9 operator pairs, all 8 assignments', functions=['keyberon/src/action/switch.rs evaluate_boolean (operator stack)']),
+        H('keyberon', 'action::switch', 'c10_b_shape_nested_last', kind='bounded', bound='fixed shape (op1 a (op2 b c)), all 9 operator pairs, all 8 assignments'),
+        H('keyberon', 'action::switch', 'c10_b_shape_nested_last_then_more', kind='bounded', bound='fixed shape (op0 (op1 (op2 a b)) c), all 27 operator triples, all 8 assignments'),
+        H('keyberon', 'action::switch', 'c10_b_shape_toplevel_list', kind='bounded', bound='fixed shape (op1 a b) c + empty list'),
+    ],
     assumptions=[
         'the parser emits enc(e) for a written expression e (parse_switch_case_bool is outside both verifiers)',
         'hand-off of fired switch actions into the action queue and fork live in Layout::do_action (not under contract)',
